@@ -49,6 +49,7 @@ func checkC20(c *Ctx) {
 	// ---- O4 cache hit equality -------------------------------------------------------------
 	c.checkBucketCacheGet("O4 cache-hit-equality")
 	c.checkBucketsEqual("O4 buckets-equal")
+	c.checkBucketsUsed("O4 buckets-used")
 }
 
 // checkRecurrence (O5): the bounds follow the documented recurrence. Decided symbolically on SSA, not
